@@ -328,7 +328,7 @@ def apply_transforms(transaction, transforms):
             new_value = evaluator.evaluate(parsed)
 
             # Update the field, preserving original in _raw_{field}
-            field_name = field_path[6:]  # Remove "field." prefix
+            field_name = field_path[6:].lower()  # Remove "field." prefix; names are case-insensitive
             raw_key = f'_raw_{field_name}'
 
             if field_name == 'description':
